@@ -426,6 +426,19 @@ class Canon:
             ln = {}
         return f_and([self._f(self.norm(c), ln) for c in pc])
 
+    @staticmethod
+    def _fold_cmp(t):
+        op, a, b = t[1], t[2], t[3]
+        if a[0] == "const" and b[0] == "const":
+            try:
+                x, y = a[1], b[1]
+                r = {"==": x == y, "!=": x != y, "is": x is y, "isnot": x is not y}.get(op)
+                if r is not None:
+                    return C(bool(r))
+            except Exception:
+                pass
+        return t
+
     def _conj_exists(self, items, ln):
         """conjunction of a return-site path condition; the part inside a loop is
         existentially quantified over the iterations"""
@@ -480,21 +493,31 @@ class Canon:
             return f_not(("exists", binder, f_and(cf + [f_not(ef)])))
         if k == "cmp":
             op, a, b = t[1], t[2], t[3]
+            # a comparison of a conditional value is the conditional of the comparisons
+            for side, x in ((2, a), (3, b)):
+                if isinstance(x, tuple) and x and x[0] == "phi":
+                    c = self._f(x[1], ln)
+                    t1 = list(t)
+                    t1[side] = x[2]
+                    t2 = list(t)
+                    t2[side] = x[3]
+                    return f_or([f_and([c, self._f(self._fold_cmp(tuple(t1)), ln)]),
+                                 f_and([f_not(c), self._f(self._fold_cmp(tuple(t2)), ln)])])
             sa, sb = self._show(a, ln), self._show(b, ln)
             if op == "==":
                 x, y = sorted([sa, sb])
-                return ("atom", f"{x}=={y}")
+                return _atom(f"{x}=={y}", "==", x, y)
             if op == "!=":
                 x, y = sorted([sa, sb])
-                return f_not(("atom", f"{x}=={y}"))
+                return f_not(_atom(f"{x}=={y}", "==", x, y))
             if op == "<":
-                return ("atom", f"{sa}<{sb}")
+                return _atom(f"{sa}<{sb}", "<", sa, sb)
             if op == ">":
-                return ("atom", f"{sb}<{sa}")
+                return _atom(f"{sb}<{sa}", "<", sb, sa)
             if op == "<=":
-                return f_not(("atom", f"{sb}<{sa}"))
+                return f_not(_atom(f"{sb}<{sa}", "<", sb, sa))
             if op == ">=":
-                return f_not(("atom", f"{sa}<{sb}"))
+                return f_not(_atom(f"{sa}<{sb}", "<", sa, sb))
             if op == "in":
                 return ("atom", f"{sa} in {sb}")
             if op == "notin":
@@ -555,8 +578,76 @@ def f_or(fs):
     return ("or", tuple(out))
 
 
-def A(s):
+ATOM_STRUCT = {}      # atom string -> (op, lhs, rhs) for order/equality atoms
+
+
+def _atom(s, op, a, b):
+    ATOM_STRUCT[s] = (op, a, b)
     return ("atom", s)
+
+
+def A(s):
+    """hand-written (oracle) atom; simple `a<b` / `a==b` spellings get their structure registered
+    so that the order axioms apply to them too"""
+    if s not in ATOM_STRUCT:
+        if s.count("<") == 1 and "==" not in s and " in " not in s and " is " not in s:
+            a, b = s.split("<")
+            ATOM_STRUCT[s] = ("<", a, b)
+        elif s.count("==") == 1 and "<" not in s and " in " not in s and " is " not in s:
+            a, b = s.split("==")
+            ATOM_STRUCT[s] = ("==", a, b)
+    return ("atom", s)
+
+
+def theory_pairs(atoms):
+    """pairs of atoms that cannot both be true: a<b with b<a, a<b with a==b"""
+    idx = {}
+    for s in atoms:
+        st = ATOM_STRUCT.get(s)
+        if st is None:
+            # oracle atoms written by hand: match against derived atoms' operands
+            for (op, a, b) in list(ATOM_STRUCT.values()):
+                for o2 in ("<", "=="):
+                    if s == f"{b}{o2}{a}" and o2 == "<":
+                        st = ("<", b, a)
+                    elif s == f"{a}{o2}{b}" and o2 == "<":
+                        st = ("<", a, b)
+            if st:
+                ATOM_STRUCT[s] = st
+        if st:
+            idx[st] = s
+    out = []
+    for (op, a, b), s in idx.items():
+        if op == "<":
+            t = idx.get(("<", b, a))
+            if t is not None and s < t:
+                out.append((s, t))
+            x, y = sorted([a, b])
+            e = idx.get(("==", x, y))
+            if e is not None:
+                out.append((s, e))
+    return out
+
+
+def consistent(val, pairs):
+    return not any(val[p] and val[q] for p, q in pairs)
+
+
+def mono_pairs(atoms):
+    """(e1, e2): EXISTS x.A true forces EXISTS x.B true whenever A => B (same binder)"""
+    ex = [a for a in atoms if a in EXISTS_BODY]
+    out = []
+    for e1 in ex:
+        for e2 in ex:
+            if e1 == e2 or EXISTS_BODY[e1][0] != EXISTS_BODY[e2][0]:
+                continue
+            key = (e1, e2)
+            if key not in _MONO:
+                _MONO[key] = None       # guard against re-entrance
+                _MONO[key] = bool(f_implies(EXISTS_BODY[e1][1], EXISTS_BODY[e2][1]))
+            if _MONO[key]:
+                out.append((e1, e2))
+    return out
 
 
 def f_atoms(f, acc=None):
@@ -578,6 +669,8 @@ def f_atoms(f, acc=None):
 
 _EXKEY = {}
 EXISTS_PRETTY = {}
+EXISTS_BODY = {}       # exists key -> (binder, body formula)
+_MONO = {}
 
 
 def exists_key(f):
@@ -586,6 +679,7 @@ def exists_key(f):
         k = f"EXISTS[{f[1]}]" + f_key(f[2])
         _EXKEY[f] = k
         EXISTS_PRETTY.setdefault(k, f_show(f))
+        EXISTS_BODY.setdefault(k, (f[1], f[2]))
     return k
 
 
@@ -676,8 +770,14 @@ def f_implies(f, g):
     atoms = sorted(f_atoms(f) | f_atoms(g))
     if len(atoms) > MAX_ATOMS:
         return None
+    pairs = theory_pairs(atoms)
+    mono = mono_pairs(atoms)
     for bits in itertools.product((False, True), repeat=len(atoms)):
         v = dict(zip(atoms, bits))
+        if pairs and not consistent(v, pairs):
+            continue
+        if mono and any(v[a] and not v[b] for a, b in mono):
+            continue
         if f_eval(f, v) and not f_eval(g, v):
             return False
     return True
